@@ -672,6 +672,13 @@ is_copy_constructible(CPPVisibility min_vis) const {
   CPPInstance *constructor = get_copy_constructor();
   if (constructor != nullptr) {
     // It has a copy constructor.
+    CPPFunctionType *ftype = constructor->_type->as_function_type();
+    assert(ftype != nullptr);
+    if (!ftype->_parameters->_parameters[0]->_type->remove_reference()->is_const()) {
+      // It cannot copy a const object.
+      return false;
+    }
+
     if (constructor->_vis > min_vis) {
       // Inaccessible copy constructor.
       return false;
@@ -1085,7 +1092,8 @@ get_default_constructor() const {
 
 /**
  * Returns the copy constructor defined for the struct type, or NULL if no
- * user-declared copy constructor exists.
+ * user-declared copy constructor exists.  If there are several, prefers the
+ * one that takes a reference to const.
  */
 CPPInstance *CPPStructType::
 get_copy_constructor() const {
@@ -1093,6 +1101,8 @@ get_copy_constructor() const {
   if (fgroup == nullptr) {
     return nullptr;
   }
+
+  CPPInstance *result = nullptr;
 
   CPPFunctionGroup::Instances::const_iterator ii;
   for (ii = fgroup->_instances.begin();
@@ -1105,11 +1115,17 @@ get_copy_constructor() const {
     assert(ftype != nullptr);
 
     if ((ftype->_flags & CPPFunctionType::F_copy_constructor) != 0) {
-      return inst;
+      CPPType *param_type = ftype->_parameters->_parameters[0]->_type;
+      if (param_type->remove_reference()->is_const()) {
+        return inst;
+      }
+      if (result == nullptr) {
+        result = inst;
+      }
     }
   }
 
-  return nullptr;
+  return result;
 }
 
 /**
